@@ -66,7 +66,7 @@ def rebaseOf (j : Json) : Except String RebaseFacts := do
     | .ok v => (← v.getArr?).toList.mapM innerOf
     | .error _ => pure []
   pure { orig := ← getNatField j "orig", onto := ← getNatField j "onto",
-         upstreamArg := ← getNatField j "upstreamArg", interactive := boolD j "interactive" false,
+         upstreamArg := ← getNatField j "upstreamArg", branchArg := ← optNat j "branchArg", interactive := boolD j "interactive" false,
          chain := ← natList j "chain", newChain := ← natList j "newChain", pairs := ← pairList j "pairs",
          newHead := ← getNatField j "newHead", inner := inner, wlAtOrig := boolD j "wlAtOrig" false }
 
@@ -174,7 +174,8 @@ def jPhase : Phase → String
   | .prepared => "prepared" | .committed => "committed" | .aborted => "aborted"
 
 def jCtx (c : Ctx) : List (String × Json) :=
-  [("rebaseDir", Json.bool c.rebaseDir), ("cpHead", jOpt c.cpHead), ("seqDir", Json.bool c.seqDir), ("action", jAction c.action)]
+  [("rebaseDir", Json.bool c.rebaseDir), ("cpHead", jOpt c.cpHead), ("seqDir", Json.bool c.seqDir), ("action", jAction c.action),
+   ("reflogReset", Json.bool c.reflogReset)]
 
 def jHook (e : HookEv) : Json :=
   let nm : String := String.ofList e.name
